@@ -2813,6 +2813,7 @@ func (db *DB) SnapshotReader(ctx context.Context) (ltx.Pos, io.ReadCloser, error
 	if err != nil {
 		return ltx.Pos{}, nil, err
 	}
+	verifPhase(db, "snapshot_position")
 
 	r, err := db.snapshotReader(ctx, pos)
 	if err != nil {
